@@ -99,7 +99,7 @@ func VerifC14SharedBaseConfigured() {
 func VerifC14SharedParser() {
 	p := symbolicParser()
 	ci := vnd.Pick(len(ctxAbs))
-	in := ctxAbs[ci].pre + vnd.Str(vnd.Len(vnd.Param("C14.KAbs", 2, 3))) + ctxAbs[ci].suf
+	in := ctxAbs[ci].pre + vnd.Str(vnd.Len(vnd.Param("C14.KAbs", 2, 2))) + ctxAbs[ci].suf
 	which := vnd.Pick(3)
 	vnd.Concurrently(func() {
 		switch which {
